@@ -1,6 +1,8 @@
 #!/bin/bash
 # process every /tmp/seed/out-<ID>[/alt2] that has patch.diff + meta.json and is not yet stored under /verif/seeded
+FILTER=${1:-.}
 for d in /tmp/seed/out-C* /tmp/seed/out-C*/alt2; do
+  echo $d | grep -Eq "out-($FILTER)" || continue
   [ -f $d/patch.diff ] || continue
   [ -f $d/meta.json ] || continue
   id=$(echo $d | grep -o 'out-C[0-9]*' | sed 's/out-//')
